@@ -58,7 +58,8 @@ static nsync_dll_element_ *some_record (void) {
 	w->nw.waiting = vp_nondet_u32 ();
 	w->nw.flags = (uint32_t) vp_nondet_u32 ();
 	w->remove_count = vp_nondet_u32 ();
-	w->cv_mu = NULL;
+	/* a cv waiter is associated with the mutex under proof, or with none */
+	w->cv_mu = vp_nondet_bool () ? NULL : (struct nsync_mu_s_ *) vp_reg.mu_word;
 	w->flags = vp_nondet_i32 ();
 	w->l_type = vp_nondet_bool () ? nsync_writer_type_ : nsync_reader_type_;
 	w->cond.f = NULL;
